@@ -738,6 +738,10 @@ class Response(StreamResponse):
             return await super()._do_start_compression(coding)
         if coding is ContentCoding.identity:
             return
+        if self._body is None:
+            # Nothing to compress (e.g. web.Response(status=201) with
+            # enable_compression()): send the empty response as it is.
+            return
         # Instead of using _payload_writer.enable_compression,
         # compress the whole body
         compressor = ZLibCompressor(
